@@ -273,7 +273,14 @@ def _check_respell(ctx, case):
     else:
         same = same_molecule(mol, m2)
         if same is None:
-            same = Chem.MolToSmiles(m2) == Chem.MolToSmiles(mol)
+            # RDKit's canonical SMILES is not enough: for E/Z bonds closing a
+            # ring its writer / parser pair may flip one bond while both
+            # molecules still canonicalise to the same string
+            # (C1=C\\CC/C=C/C=C/1); a stereo-aware atom matching both ways
+            # is the second witness
+            same = Chem.MolToSmiles(m2) == Chem.MolToSmiles(mol) and \
+                bool(m2.GetSubstructMatch(mol, useChirality=True)) and \
+                bool(mol.GetSubstructMatch(m2, useChirality=True))
         if not same:
             # RDKit's own writer / parser did not keep the molecule
             ctx.exclude("rdkit-respelling-changed-molecule")
